@@ -21,7 +21,7 @@ RULE = ('case = (content class, format, filename, time, compressor, signer list 
 ASSUMPTIONS = ['vf.ref.grammar recogniser of RFC 4880 11.3', 'zlib / bz2 decompressors']
 MIN_COUNTERS = {'quick': {'exports_recognised': 300, 'onepass_sets_checked': 150, 'imports_compared': 400, 'compressors_seen': 4, 'foreign_framings': 50},
                 'thorough': {'exports_recognised': 4000}}
-BUDGET = {'quick': (260, 800), 'thorough': (1800, 3600)}
+BUDGET = {'quick': (600, 1500), 'thorough': (1800, 3600)}
 TECHNIQUE = 'runtime monitoring: grammar-recogniser monitor (independent RFC 4880 11.3 parser) + differential import comparison'
 
 SIGNERS = ['ed25519_0', 'rsa1024_0', 'dsa1024_0', 'ecdsa_p256_0', 'ecdsa_k256_0']
